@@ -26,7 +26,7 @@ C11_SHAPES_SLOW = ['c11_prec_not_eq', 'c11_prec_not_not_eq']
 C11_GATING = ['c11_gating_' + d + '_bounded' for d in ('define', 'undef', 'include', 'pragma', 'unknown', 'ifdef', 'if', 'elif', 'else', 'endif')]
 
 ALL_V_UNITS = ['cond_chain', 'cond_file', 'cond_parser', 'bindings', 'lexer_digits', 'lexer_float', 'token_stream', 'source_manager', 'layout',
-               'hlsl_bindings', 'hlsl_analyse', 'hlsl_expr', 'hlsl_literal', 'msl_literal', 'evaluator', 'fmt_paren']
+               'hlsl_bindings', 'hlsl_analyse', 'hlsl_expr', 'hlsl_literal', 'msl_literal', 'evaluator', 'fmt_paren', 'unlex']
 
 PROPS = {
     'C01': {
@@ -64,7 +64,7 @@ PROPS = {
     },
     'C10': {
         'title': 'Lexing is lossless and numeric literals are exact',
-        'v_units': ['lexer_digits', 'lexer_float', 'token_stream', 'source_manager'],
+        'v_units': ['lexer_digits', 'lexer_float', 'token_stream', 'source_manager', 'unlex'],
         'k_groups': [
             {'module': 'text/location.rs',
              'harnesses': [('c10_location_table_inverse_bounded', 'bounded:2 files of <= 3 and <= 2 bytes')], 'tier': 'quick'},
